@@ -30,7 +30,7 @@ ANCHORS = ['pfhedge.nn.functional:bs_european_price',
            'pfhedge.nn.functional:bs_lookback_price']
 DECIDING = ["parity.european", "parity.binary", "bounds.call", "bounds.binaries", "monotone.spot", "convex.spot", "monotone.vol", "monotone.time",
             "lookback.dominance", "american.dominance", "american.one_at_barrier", "continuity.lookback", "continuity.american"]
-REQUIRED_BRANCHES = ["via.module", "via.fn", "max==strike>spot", "float32", "float64"]
+REQUIRED_BRANCHES = ["via.module", "via.fn", "via.fn_positional", "via.module_with_derivative", "max==strike>spot", "float32", "float64"]
 
 NB = 256
 
@@ -58,9 +58,29 @@ def drv_relations(ctx, k, rng):
     e = float(torch.finfo(dtype).eps)
     c = 64 if dtype == F64 else 128
     s, tt, v, K, m = pts(rng, dtype)
-    via = pick(rng, ["fn", "fn", "module"])
+    via = pick(rng, ["fn", "fn_positional", "module", "module_with_derivative"])
     ctx.branch("via." + via)
-    if via == "module":
+    if via == "fn_positional":
+        # the same functions with strike / call flag passed by position (the documented parameter order)
+        P_eu = lambda s_, t_, v_, strike=None, call=True: F.bs_european_price(s_, t_, v_, strike, call)  # noqa: E731
+        P_eb = lambda s_, t_, v_, call=True: F.bs_european_binary_price(s_, t_, v_, call)  # noqa: E731
+        P_ab = lambda s_, m_, t_, v_: F.bs_american_binary_price(s_, m_, t_, v_)  # noqa: E731
+        P_lb = lambda s_, m_, t_, v_, strike=None: F.bs_lookback_price(s_, m_, t_, v_, strike)  # noqa: E731
+    elif via == "module_with_derivative":
+        # modules built directly with their own contract (flag, strike) and a derivative attached: explicit arguments and the module's own contract decide
+        from pfhedge.instruments import AmericanBinaryOption, BrownianStock, EuropeanBinaryOption, EuropeanOption, LookbackOption
+        from pfhedge.nn import BSAmericanBinaryOption, BSEuropeanBinaryOption, BSEuropeanOption, BSLookbackOption
+
+        k0 = float(pick(rng, [1.0, 0.6, 2.5]))
+        K = torch.full_like(K, k0)
+        stk = BrownianStock()
+        d_eu, d_eb = EuropeanOption(stk, call=True, strike=k0), EuropeanBinaryOption(stk, call=True, strike=k0)
+        d_ab, d_lb = AmericanBinaryOption(stk, strike=k0), LookbackOption(stk, strike=k0)
+        P_eu = lambda s_, t_, v_, strike=None, call=True: BSEuropeanOption(call=call, strike=k0, derivative=d_eu).price(s_, t_, v_)  # noqa: E731
+        P_eb = lambda s_, t_, v_, call=True: BSEuropeanBinaryOption(call=call, strike=k0, derivative=d_eb).price(s_, t_, v_)  # noqa: E731
+        P_ab = lambda s_, m_, t_, v_: BSAmericanBinaryOption(strike=k0, derivative=d_ab).price(s_, m_, t_, v_)  # noqa: E731
+        P_lb = lambda s_, m_, t_, v_, strike=None: BSLookbackOption(strike=k0, derivative=d_lb).price(s_, m_, t_, v_)  # noqa: E731
+    elif via == "module":
         # the pricing modules are the other public surface of the same formulas (scalar strike per module)
         from pfhedge.nn import BSAmericanBinaryOption, BSEuropeanBinaryOption, BSEuropeanOption, BSLookbackOption
 
